@@ -14,3 +14,8 @@ Definition c16_check (c : c16case) : bool := obs_eqb (c16_model c) (v_impl c).
 Definition mkrange t known k e lim ko co a b c d : range_rq :=
   {| rr_table_len := t; rr_table_known := known; rr_key_len := k; rr_end_len := e; rr_limit := lim; rr_keys_only := ko;
      rr_count_only := co; rr_min_mod := a; rr_max_mod := b; rr_min_create := c; rr_max_create := d |}.
+
+(* the read path: the operation kinds of the two branches; observed: TxnRequest.IsReadonly *)
+Record rocase := { ro_succ : list txn_op; ro_fail : list txn_op; ro_impl : obs }.
+Definition ro_model (c : rocase) : obs := obool (is_readonly (ro_succ c) (ro_fail c)).
+Definition ro_check (c : rocase) : bool := obs_eqb (ro_model c) (ro_impl c).
